@@ -38,10 +38,16 @@ class CrossStubs:
         if self.choices == 'last':
             return list(combos[-1])
         self.mv_calls += 1
-        t = ctx.fresh_int(f'mv{self.mv_calls}')
-        ctx.assume(t >= 0)
-        ctx.assume(t < len(combos))
-        return list(combos[ctx.concretize_int(t)])
+        # the choice is a function of the call number: a second run in the same
+        # path (reference run, cached run) makes the same choices
+        memo = ctx.__dict__.setdefault('cross_choices', {})
+        key = ('pick', self.mv_calls, n, q)
+        if key not in memo:
+            t = ctx.fresh_int(f'mv{self.mv_calls}')
+            ctx.assume(t >= 0)
+            ctx.assume(t < len(combos))
+            memo[key] = ctx.concretize_int(t)
+        return list(combos[memo[key]])
 
     def maxvol(self, A, e=1.05, k=100):
         from symtt import stubs
@@ -65,10 +71,14 @@ class CrossStubs:
             q = r_min
         else:
             self.mv_calls += 1
-            t = ctx.fresh_int(f'mvq{self.mv_calls}')
-            ctx.assume(t >= r_min)
-            ctx.assume(t <= r_max)
-            q = ctx.concretize_int(t)
+            memo = ctx.__dict__.setdefault('cross_choices', {})
+            key = ('rows', self.mv_calls, n, r_min, r_max)
+            if key not in memo:
+                t = ctx.fresh_int(f'mvq{self.mv_calls}')
+                ctx.assume(t >= r_min)
+                ctx.assume(t <= r_max)
+                memo[key] = ctx.concretize_int(t)
+            q = memo[key]
         I = self._pick(n, q)
         AI = A[I, :]
         if q == r:
